@@ -64,6 +64,15 @@ def cases(tier: str, seed: int) -> list[dict]:
                     continue
                 out.append({"sc": "form", "form": form, "et": et, "mt": ["mass", "rigi"][(k + r) % 2], "coef": ["const", "Ne", "NePg", "coords"][(k + r) % 4]})
                 k += 1
+            dim = 1 if et.startswith("SEG") else (2 if et in gm.ET_2D else 3)
+            if dim == 3 and not (heavy and tier == "quick"):
+                # a vector field with fewer components than the space has dimensions (1 <= dof_n <= dim is accepted)
+                for form in ("vector-diffusion", "vector-advection", "mass-vector"):
+                    out.append({"sc": "form", "form": form, "et": et, "mt": ["mass", "rigi"][(k + r) % 2], "coef": ["const", "Ne", "NePg", "coords"][(k + r) % 4], "dof_n": 2})
+                    k += 1
+            if dim >= 2 and not (heavy and tier == "quick"):
+                out.append({"sc": "form", "form": "vector-diffusion", "et": et, "mt": ["mass", "rigi"][(k + r) % 2], "coef": ["const", "Ne", "NePg", "coords"][(k + r) % 4]})
+                k += 1
         # time-dependent twins: element types on which the dedicated simulation's 'rigi' rule and the field's 'mass' rule both
         # integrate the stiffness exactly (affine simplices, organised QUAD4); static twins use a 'rigi' field
         for et in ["SEG2", "SEG3"]:
@@ -119,7 +128,7 @@ def run_case(case: dict, ctx: Ctx) -> None:
 def run_form(case, ctx, rng):
     form, et, mtname, ccls = case["form"], case["et"], case["mt"], case["coef"]
     mt = MatrixType(mtname)
-    key = f"C13/{form}"
+    key = f"C13/{form}" + (f"/dof_n={case['dof_n']}" if "dof_n" in case else "")
     ctx.default_key = key
     with ctx.monitored("no-exception", key + "/mesh/raised"):
         mesh, dim = small_group(rng, et)
@@ -173,23 +182,33 @@ def run_form(case, ctx, rng):
         elif form == "vector-advection":
             # (grad(u) b) . v with grad(u)_ij = d u_i / d x_j (the convention of Get_Gradient_e_pg and of the evaluated field):
             # K[(a,i),(c,j)] = delta_ij int N_a (b . grad N_c)
-            dof_n = dim
+            dof_n = case.get("dof_n", dim)
             dN = np.asarray(g.Get_dN_e_pg(mt))
             Npg = np.asarray(g.Get_N_pg(mt))[:, 0, :]
             wJ = np.asarray(g.Get_weightedJacobian_e_pg(mt))
             cw = np.asarray(FeArray.broadcast(c_op, g.Ne, wJ.shape[1])) * wJ if not np.isscalar(c_op) else c_op * wJ
             bvec = rng.uniform(0.5, 2, dim)
             scal = np.einsum("ep,pa,d,epdc->eac", cw, Npg, bvec, dN)  # (Ne, nPe, nPe)
-            ref = np.einsum("eac,ij->eaicj", scal, np.eye(dim)).reshape(g.Ne, g.nPe * dim, g.nPe * dim)
+            ref = np.einsum("eac,ij->eaicj", scal, np.eye(dof_n)).reshape(g.Ne, g.nPe * dof_n, g.nPe * dof_n)
             spellings = {"k*(grad(u)@b).dot(v)": lambda u, v: coef_in_form(u) * (u.grad @ bvec).dot(v),
                          "k*v.dot(grad(u)@b)": lambda u, v: coef_in_form(u) * v.dot(u.grad @ bvec)}
+        elif form == "vector-diffusion":
+            # grad(u) : grad(v) with grad(u)_ij = d u_i / d x_j, i < dof_n, j < dim:  K[(a,i),(c,j)] = delta_ij int k grad N_a . grad N_c
+            dof_n = case.get("dof_n", dim)
+            dN = np.asarray(g.Get_dN_e_pg(mt))
+            wJ = np.asarray(g.Get_weightedJacobian_e_pg(mt))
+            cw = np.asarray(FeArray.broadcast(c_op, g.Ne, wJ.shape[1])) * wJ if not np.isscalar(c_op) else c_op * wJ
+            scal = np.einsum("ep,epda,epdc->eac", cw, dN, dN)
+            ref = np.einsum("eac,ij->eaicj", scal, np.eye(dof_n)).reshape(g.Ne, g.nPe * dof_n, g.nPe * dof_n)
+            spellings = {"k*grad(u).ddot(grad(v))": lambda u, v: coef_in_form(u) * u.grad.ddot(v.grad),
+                         "grad(v).ddot(k*grad(u))": lambda u, v: v.grad.ddot(coef_in_form(u) * u.grad)}
         elif form == "mass-scalar":
             ref = Operators.Bilinear.UV(g, c_op, 1, mt)
             spellings = {"c*u.dot(v)": lambda u, v: coef_in_form(u) * u.dot(v), "c*u*v": lambda u, v: coef_in_form(u) * u * v,
                          "u@(c*v)": lambda u, v: u @ (coef_in_form(u) * v)}
         elif form == "mass-vector":
-            dof_n = dim
-            ref = Operators.Bilinear.UV(g, c_op, dim, mt)
+            dof_n = case.get("dof_n", dim)
+            ref = Operators.Bilinear.UV(g, c_op, dof_n, mt)
             spellings = {"c*u.dot(v)": lambda u, v: coef_in_form(u) * u.dot(v), "c*(u@v)": lambda u, v: coef_in_form(u) * (u @ v)}
         elif form == "elasticity":
             dof_n = dim
@@ -267,7 +286,7 @@ def run_form(case, ctx, rng):
             gotA = Aasm.toarray() if ok_shape else np.zeros((Ndof, Ndof))
         ctx.require("assemble-shape", ok_shape, skey + "/assemble/shape", shape=list(Aasm.shape))
         ctx.check("assemble-vs-scatter", relerr(gotA, want, scale=np.abs(want).max()), 1e-12, skey + "/assemble", et=et)
-    if form in ("elasticity", "vector-advection"):
+    if form in ("elasticity", "vector-advection", "vector-diffusion") and dof_n == dim:
         # the gradient used while assembling (superposition of the basis gradients) and the gradient of an evaluated field agree
         U = rng.normal(size=mesh.Nn * dof_n)
         with ctx.monitored("no-exception", key + "/grad-modes/raised"):
@@ -283,7 +302,7 @@ def run_form(case, ctx, rng):
             ev = ev[..., : sup.shape[-1], 0] if ev.ndim == 4 else ev
         ctx.check("grad-modes-consistent", relerr(sup, ev.reshape(sup.shape) if ev.size == sup.size else ev), 1e-12, key + "/grad-modes", dof_n=dof_n,
                   shapes=[list(np.shape(sup)), list(np.shape(ev))])
-    ctx.describe(f"form/{form}/{et}/{mtname}/{ccls}", g.Ne >= 2 and n_ok > 0, form=form, et=et, matrixType=mtname, coef=ccls, dof_n=dof_n, Ne=g.Ne, spellings=list(spellings))
+    ctx.describe(f"form/{form}/{et}/{mtname}/{ccls}/{dof_n}", g.Ne >= 2 and n_ok > 0, form=form, et=et, matrixType=mtname, coef=ccls, dof_n=dof_n, Ne=g.Ne, spellings=list(spellings))
 
 
 # ------------------------------------------------------------------------------------------
